@@ -416,7 +416,7 @@ def resolve_printed(printed: list[str], roots: list[str], snap: dict[str, str]) 
                 res = None
                 break
             full = f"{parent}/{s}" if parent else s
-            if full not in snap:
+            if full not in snap and not any(a in snap and "/.git/" in a + "/" for a in ancestors(full)):
                 res = None
                 break
             res.append(full)
@@ -425,6 +425,11 @@ def resolve_printed(printed: list[str], roots: list[str], snap: dict[str, str]) 
         if os.path.commonpath(["/" + x for x in res + roots]).lstrip("/") == a:
             return res
     return None
+
+
+def ancestors(p: str) -> list[str]:
+    parts = p.split("/")
+    return ["/".join(parts[:i]) for i in range(1, len(parts))]
 
 
 def covered(listed: list[str], snap: dict[str, str]) -> set[str]:
@@ -555,18 +560,29 @@ def judge(ctx, case: dict, obs: dict, line_sink: list | None = None) -> None:
     ctx.dist["excl:" + ("cfg" if case["cfg_pats"] is not None else "cli" if case["cli_pats"] else "none")] += 1
     ctx.dist["second:" + second["mode"]] += 1
     if dry["exit"] != 0 or second["exit"] != 0:
-        # the command failed (collection error, crash): nothing may have been removed
         ctx.dist["nonzero-exit"] += 1
-        gone = [p for p in s0 if p not in s1]
-        if gone:
-            ctx.violation(f"dry-run-removed: {gone[:3]} disappeared in a (failing) dry-run, exit {dry['exit']}", rp)
         ctx.extra.setdefault("nonzero_exit_samples", [])
         if len(ctx.extra["nonzero_exit_samples"]) < 3:
             ctx.extra["nonzero_exit_samples"].append((dry["tail"] or second["tail"])[-300:])
+    if dry["exit"] != 0:
+        # the command failed (collection error, crash): nothing may have been removed
+        gone = [p for p in s0 if p not in s1]
+        if gone:
+            ctx.violation(f"dry-run-removed: {gone[:3]} disappeared in a (failing) dry-run, exit {dry['exit']}", rp)
         ctx.case({"c": case["id"], "x": "exit"}, False)
         return
+    second_failed = second["exit"] != 0     # the dry-run listing is still judged; the removal is only bounded from above
 
-    listed = resolve_printed(dry["would"], roots, s1)
+    # --- oracle 2: dry-run removes / changes nothing (checked first: everything else is read off the dry-run listing)
+    for p, k in s0.items():
+        if p not in s1:
+            ctx.violation(f"dry-run-removed: {p} disappeared in dry-run mode", rp)
+            break
+        if s1[p] != k and not p.startswith(f"{case['root']}/.pytask/") and "/.git/" not in p:
+            ctx.violation(f"dry-run-changed: {p} changed in dry-run mode", rp)
+            break
+
+    listed = resolve_printed(dry["would"], roots, {**s0, **s1})
     if listed is None:
         ctx.dist["unresolved-output"] += 1
         ctx.case({"c": case["id"], "x": "unres"}, False)
@@ -595,17 +611,14 @@ def judge(ctx, case: dict, obs: dict, line_sink: list | None = None) -> None:
                               finding=classify(case, hq, q))
                 break
 
-    # --- oracle 2: dry-run removes / changes nothing
-    for p, k in s0.items():
-        if p not in s1:
-            ctx.violation(f"dry-run-removed: {p} disappeared in dry-run mode", rp)
-            break
-        if s1[p] != k and not p.startswith(f"{case['root']}/.pytask/") and "/.git/" not in p:
-            ctx.violation(f"dry-run-changed: {p} changed in dry-run mode", rp)
-            break
-
     # --- oracle 3: force removes exactly what dry-run lists; interactive exactly the confirmed ones
     gone = {p for p in s1 if p not in s2}
+    if second_failed:
+        more = sorted(gone - cov)
+        if more:
+            ctx.violation(f"force-removed-more: a failing {second['mode']} run (exit {second['exit']}) removed {more[:3]} which dry-run did not list", rp)
+        ctx.case({"c": case["id"], "x": "exit2"}, False)
+        return
     if second["mode"] == "force":
         rem = resolve_printed(second["removed"], roots, s1)
         if rem is not None and set(rem) != set(listed):
@@ -918,9 +931,10 @@ def campaign(ctx) -> None:
             ctx.extra["selftest_F16_witness_detected"] = any(v["finding"] == "F16" for v in ctx.violations)
     compare_model(ctx, pending)
     total = max(1, len(cases))
-    if (ctx.dist["unresolved-output"] + ctx.dist["worker-error"]) * 10 > total:
+    fresh_now = [v for v in ctx.violations if not v["finding"]]
+    if not fresh_now and (ctx.dist["unresolved-output"] + ctx.dist["worker-error"]) * 10 > total:
         raise common.InfraError(f"too many uninterpretable runs: {dict(ctx.dist)} {ctx.extra.get('worker_errors', [])[:2]}")
-    if ctx.dist["nonzero-exit"] * 5 > total:
+    if not fresh_now and ctx.dist["nonzero-exit"] * 5 > total:
         raise common.InfraError(f"too many failing clean runs ({ctx.dist['nonzero-exit']}/{total}): "
                                 f"{ctx.extra.get('nonzero_exit_samples')}")
 
